@@ -46,6 +46,9 @@ fn decode_family(o: &mut Out, r: &mut Rng, th: bool) {
         for _ in 0..(if th { 20 } else { 3 }) {
             let v = valid_object(r, codec);
             o.op(&format!("decode.{}.valid", codec), &format!("decode {} {}", codec, hex(&v)));
+            if ["pubkey", "secret", "keypair", "ct", "handle", "cmt"].contains(codec) {
+                o.op(&format!("serde.{}", codec), &format!("serde {} {}", codec, hex(&v)));
+            }
         }
         // every length 0..=2N
         for len in 0..=(2 * n) {
